@@ -18,7 +18,7 @@ Task: design ONE realistic change to rqlite (the kind of regression a plausible 
   (a) the tree still compiles (`go1.26 build ./...`), and
   (b) the EXISTING test suite still passes — at minimum run the full tests of every package you touched and of its direct users (e.g. `go1.26 test -count=1 ./queue ./http`), they must all pass unedited; you may not edit or delete existing tests;
   (c) the breakage needs something SPECIFIC to manifest — a particular interleaving, a crash or fault at a particular point, a multi-step sequence of operations, an unusual input, or two cooperating sites that each look fine alone — NOT something ordinary use would expose at once, and not a change that makes the feature obviously dead;
-  (d) you provide a DEMONSTRATION: a new Go test file (or small program) that FAILS with your change and PASSES without it (verify both directions yourself: `git stash` / `git stash pop`, or apply/reverse the patch).
+  (d) you provide a DEMONSTRATION: a new Go test file (or small program) that FAILS with your change and PASSES without it (verify both directions yourself by saving your diff and reversing it: `git diff > /tmp/seed-{pid}.diff; git apply -R /tmp/seed-{pid}.diff; ...; git apply /tmp/seed-{pid}.diff`. NEVER use `git stash`: the stash is shared with other worktrees of this repository that other people are using).
 
 Environment (no network): in every shell call first run `export GOFLAGS=-mod=mod GOPROXY=off GOSUMDB=off GOTOOLCHAIN=local` and use `go1.26` (not `go`). The first build of packages using SQLite (cgo) takes ~2 minutes; later builds are seconds. Packages `store` and `system_test` have slow test suites (several minutes) — that is expected; use -timeout 25m.
 
